@@ -13,6 +13,16 @@ def hexb(b):
     return "B" + bytes(b).hex()
 
 
+def long_str(rng):
+    """a string of several hundred encoded bytes whose double-byte characters straddle the 256-byte (and 512-byte)
+    offsets - an odd number of single-byte characters followed by a long kana run (seeded change binshared-3 decoded in
+    fixed 256-byte blocks); ASCII + kana only, so it is also order-safe as a big-endian label"""
+    head = rng.choice([b"x", b"abc", b"k" * 255, b"", b"MID_"])
+    kana = [bytes.fromhex("82a0"), bytes.fromhex("82a2"), bytes.fromhex("835c"), bytes.fromhex("8341")]
+    n = rng.choice([128, 129, 130, 200, 256, 300])
+    return head + b"".join(rng.choice(kana) for _ in range(n)) + rng.choice([b"", b"!", bytes.fromhex("b1")])
+
+
 class Content:
     def __init__(self, endian, data, text, ptr, lab, cs):
         self.e = endian
@@ -38,6 +48,10 @@ def random_content(rng, endian, max_size=64, cstrings=True, aligned_len=None):
     pool = ASCII_STRS + KANA_STRS + KANJI_STRS
     label_pool = ORDER_SAFE if endian == "B" else pool
     dense = rng.random()
+    longs = rng.random() < 0.15          # some archives carry strings of several hundred bytes
+    if longs:
+        pool = pool + [long_str(rng) for _ in range(2)]
+        label_pool = label_pool + [long_str(rng)]
     for c in cells:
         r = rng.random()
         if r < 0.3 * dense + 0.05:
